@@ -6,6 +6,8 @@ replace github.com/MinterTeam/mhub2/module => /repo/module
 
 replace github.com/MinterTeam/mhub2/minter-connector => /repo/minter-connector
 
+replace github.com/MinterTeam/mhub2/oracle => /repo/oracle
+
 replace google.golang.org/grpc => google.golang.org/grpc v1.33.2
 
 replace github.com/gogo/protobuf => github.com/regen-network/protobuf v1.3.3-alpha.regen.1
@@ -15,6 +17,7 @@ replace github.com/99designs/keyring => github.com/cosmos/keyring v1.1.7-0.20210
 require (
 	github.com/MinterTeam/mhub2/minter-connector v0.0.0
 	github.com/MinterTeam/mhub2/module v0.0.0
+	github.com/MinterTeam/mhub2/oracle v0.0.0-00010101000000-000000000000
 	github.com/MinterTeam/minter-go-sdk/v2 v2.5.2
 	github.com/cosmos/cosmos-sdk v0.45.4
 	github.com/ethereum/go-ethereum v1.10.25
